@@ -46,6 +46,15 @@ func (s *Session) posOf(p token.Pos) string {
 
 // runFlow analyses one function; returns the disallowed uses of the secret.
 func (s *Session) runFlow(fn *ssa.Function, pol *flowPolicy) []flowUse {
+	uses, _ := s.runFlowCtx(fn, pol, nil, 0)
+	return uses
+}
+
+// runFlowCtx: taintedParams are parameters that hold the secret in this calling context (a helper of package main that the
+// secret is handed to is analysed in that context instead of being treated as a sink; depth-limited). The second result
+// says whether the function may return the secret (reported as a use only at depth 0).
+func (s *Session) runFlowCtx(fn *ssa.Function, pol *flowPolicy, taintedParams map[int]bool, depth int) ([]flowUse, bool) {
+	retTainted := false
 	tainted := map[ssa.Value]bool{}
 	cells := map[ssa.Value]bool{} // local cells (Alloc / array element addresses) holding the secret
 	var uses []flowUse
@@ -81,8 +90,8 @@ func (s *Session) runFlow(fn *ssa.Function, pol *flowPolicy) []flowUse {
 				changed = true
 			}
 		}
-		for _, p := range fn.Params {
-			if pol.isSource(fn, p) {
+		for i, p := range fn.Params {
+			if pol.isSource(fn, p) || taintedParams[i] {
 				mark(p)
 			}
 		}
@@ -140,7 +149,11 @@ func (s *Session) runFlow(fn *ssa.Function, pol *flowPolicy) []flowUse {
 					if r, ok := in.(*ssa.Return); ok {
 						for _, rv := range r.Results {
 							if tainted[rv] {
-								report(in, "returned to the caller")
+								if depth > 0 {
+									retTainted = true
+								} else {
+									report(in, "returned to the caller")
+								}
 							}
 						}
 					}
@@ -162,6 +175,23 @@ func (s *Session) runFlow(fn *ssa.Function, pol *flowPolicy) []flowUse {
 							continue
 						}
 						if pol.allowedCall(c, i) {
+							continue
+						}
+						if callee := c.StaticCallee(); callee != nil && !c.IsInvoke() && callee.Pkg == s.g.pkg && callee.Blocks != nil && depth < 4 && i < len(callee.Params) {
+							// a helper of package main: follow the secret into it
+							subUses, ret := s.runFlowCtx(callee, pol, map[int]bool{i: true}, depth+1)
+							for _, u := range subUses {
+								k := u.pos + "|" + u.what
+								if !seenUse[k] {
+									seenUse[k] = true
+									uses = append(uses, u)
+								}
+							}
+							if ret {
+								if v, ok := in.(ssa.Value); ok {
+									mark(v)
+								}
+							}
 							continue
 						}
 						report(in, fmt.Sprintf("passed as argument %d of %s", i, calleeName(c)))
@@ -198,7 +228,30 @@ func (s *Session) runFlow(fn *ssa.Function, pol *flowPolicy) []flowUse {
 		}
 	}
 	sort.Slice(uses, func(i, j int) bool { return uses[i].pos+uses[i].what < uses[j].pos+uses[j].what })
-	return uses
+	return uses, retTainted
+}
+
+// storesParam: does fn (or, transitively, a helper of package main it hands the parameter to) store the parameter through
+// an address the policy allows?
+func (s *Session) storesParam(fn *ssa.Function, p *ssa.Parameter, pol *flowPolicy, depth int) bool {
+	for _, b := range fn.Blocks {
+		for _, in := range b.Instrs {
+			if st, ok := in.(*ssa.Store); ok && pol.allowedStore(st.Addr) && st.Val == ssa.Value(p) {
+				return true
+			}
+			if call, ok := in.(ssa.CallInstruction); ok && depth < 4 {
+				c := call.Common()
+				if callee := c.StaticCallee(); callee != nil && !c.IsInvoke() && callee.Pkg == s.g.pkg && callee.Blocks != nil {
+					for i, a := range c.Args {
+						if a == ssa.Value(p) && i < len(callee.Params) && s.storesParam(callee, callee.Params[i], pol, depth+1) {
+							return true
+						}
+					}
+				}
+			}
+		}
+	}
+	return false
 }
 
 func describeAddr(addr ssa.Value) string {
@@ -222,10 +275,10 @@ func (s *Session) c20Obligations() []*Obligation {
 	pol.isSource = func(fn *ssa.Function, v ssa.Value) bool {
 		switch x := v.(type) {
 		case *ssa.Parameter:
-			return holders[shortFnName(fn)] && x.Name() == "privateKey"
+			return holders[shortFnName(fn)] && x.Name() == s.g.currentName([]string{shortFnName(fn)}, "privateKey")
 		case *ssa.UnOp:
 			if x.Op == token.MUL {
-				if fv, ok := x.X.(*ssa.FreeVar); ok && fv.Name() == "atlasPrivateKey" {
+				if fv, ok := x.X.(*ssa.FreeVar); ok && fv.Name() == s.g.currentName([]string{"main"}, "atlasPrivateKey") {
 					return true
 				}
 			}
@@ -248,7 +301,7 @@ func (s *Session) c20Obligations() []*Obligation {
 			return false
 		}
 		// argument index in c.Args corresponds to fn.Params (receiver included for static method calls)
-		if argIdx < len(fn.Params) && fn.Params[argIdx].Name() == "privateKey" {
+		if argIdx < len(fn.Params) && fn.Params[argIdx].Name() == s.g.currentName([]string{name}, "privateKey") {
 			return true
 		}
 		return false
@@ -309,13 +362,9 @@ func (s *Session) c20Obligations() []*Obligation {
 			continue
 		}
 		found := false
-		for _, b := range fn.Blocks {
-			for _, in := range b.Instrs {
-				if st, ok := in.(*ssa.Store); ok && pol.allowedStore(st.Addr) {
-					if p, ok := st.Val.(*ssa.Parameter); ok && p.Name() == "privateKey" {
-						found = true
-					}
-				}
+		for _, p := range fn.Params {
+			if p.Name() == s.g.currentName([]string{n}, "privateKey") && s.storesParam(fn, p, pol, 0) {
+				found = true
 			}
 		}
 		ob := &Obligation{Name: "flow/" + n + ":password-is-the-private-key", Fn: n, Kind: "flow", Props: []string{"C20", "C16"}, Backend: "flow", Result: "unsat",
